@@ -245,7 +245,7 @@ Inductive case :=
         (o : oclass) (evs : list event) (leaves : list path)
 | CCli (jvalid : list string) (dt : dtype) (qt : qtype) (with_ts : bool) (rs : list resp)
        (o : oclass) (recs : list drec)
-| CMgr (rs : list (resp * (oclass * N))).   (* per response: outcome, callback (0 none, 1 update, 2 sync) *)
+| CMgr (callbacks : bool) (rs : list (resp * (oclass * N))).   (* callbacks configured or nil *)   (* per response: outcome, callback (0 none, 1 update, 2 sync) *)
 
 Definition jv_of (l : list string) (s : string) : bool := existsb (String.eqb s) l.
 
@@ -280,14 +280,14 @@ Definition drec_eqb (a b : drec) : bool :=
 Definition mgr_code (o : outcome mgr_event) : N :=
   match o with Ok MUpdate => 1%N | Ok MSync => 2%N | _ => 0%N end.
 
-Fixpoint check_mgr (i : nat) (rs : list (resp * (oclass * N))) : list (nat * N) :=
+Fixpoint check_mgr (cb : bool) (i : nat) (rs : list (resp * (oclass * N))) : list (nat * N) :=
   match rs with
   | [] => []
   | (r, (o, code)) :: rest =>
       let m := manager_handle r in
-      (if oclass_eqb o (oclass_of m) && N.eqb code (mgr_code m) then [] else [(i, 1%N)]) ++
+      (if oclass_eqb o (oclass_of m) && N.eqb code (if cb then mgr_code m else 0%N) then [] else [(i, 1%N)]) ++
       (match o with OPanic => [(i, 2%N)] | _ => [] end) ++
-      check_mgr (S i) rest
+      check_mgr cb (S i) rest
   end.
 
 Definition check_case (c : case) : list (nat * N) :=
@@ -323,7 +323,7 @@ Definition check_case (c : case) : list (nat * N) :=
        | OPanic => map (fun t => (0%nat, t)) (panic_tag (if class_cli dt rs then 5%N else 0%N))
        | _ => []
        end)
-  | CMgr rs => check_mgr 0 rs
+  | CMgr cb rs => check_mgr cb 0 rs
   end.
 
 Fixpoint check_all_from (i : nat) (cs : list case) : list (nat * nat * N) :=
